@@ -2,6 +2,7 @@
 //! `vh <prop> run`                reads cases on stdin, runs the real library, one result line per case
 mod util;
 mod c02;
+mod c05;
 mod c09;
 mod c10;
 mod c12;
@@ -21,6 +22,8 @@ fn main() {
     match (prop, mode) {
         ("c02", "gen") => c02::gen(seed, thorough),
         ("c02", "run") => c02::run(),
+        ("c05", "gen") => c05::gen(seed, thorough),
+        ("c05", "run") => c05::run(),
         ("c09", "gen") => c09::gen(seed, thorough),
         ("c09", "run") => c09::run(),
         ("c10", "gen") => c10::gen(seed, thorough, false),
